@@ -226,6 +226,7 @@ def run(ctx: Ctx):
     # the approval loop over several test files vs Model/Session.v
     from .. import sessloop
     sessloop.check_part(ctx, 36 if not ctx.thorough else 500, "C04")
+    sessloop.check_nested(ctx, 24 if not ctx.thorough else 300, "C04")
     outs = tmap(run_config, confs)
     terms, idx = [], []
     for i, (c, o) in enumerate(zip(confs, outs)):
